@@ -8,7 +8,15 @@ use super::ForwardAttrs;
 /// The name a declared attribute path is matched by: its segments, with a leading `::` kept,
 /// exactly as the generated filter builds the name of each attribute it looks at.
 pub(in crate::codegen) fn attr_name(path: &syn::Path) -> String {
-    let mut name = crate::util::path_to_string(path);
+    use syn::ext::IdentExt;
+
+    // `r#foo` and `foo` are one name: the `r#` is spelling, not part of the identifier.
+    let mut name = path
+        .segments
+        .iter()
+        .map(|s| s.ident.unraw().to_string())
+        .collect::<Vec<_>>()
+        .join("::");
     if path.leading_colon.is_some() {
         name.insert_str(0, "::");
     }
@@ -112,7 +120,15 @@ pub trait ExtractAttribute {
             for __attr in #attrs_accessor {
                 // Filter attributes based on name. The name is built from the path's segments
                 // rather than from its printed tokens, whose spacing is not stable.
-                let mut __attr_name = ::darling::util::path_to_string(__attr.path());
+                let mut __attr_name = __attr
+                    .path()
+                    .segments
+                    .iter()
+                    .map(|__s| ::darling::export::ToString::to_string(
+                        &::darling::export::syn::ext::IdentExt::unraw(&__s.ident),
+                    ))
+                    .collect::<::darling::export::Vec<_>>()
+                    .join("::");
                 if __attr.path().leading_colon.is_some() {
                     __attr_name.insert_str(0, "::");
                 }
